@@ -304,6 +304,11 @@ def layout_violations(o):
                     out.append(("I3:not-loadable-at-origin", {"stmt": s["i"], "addr": s["addr"], "origin": origin, "offset": off}))
                     break
                 off += len(s["bytes"])
+    # I7: nothing is placed beyond $FFFF
+    for s in o.stmts:
+        if s["bytes"] and s["addr"] is not None and s["addr"] + len(s["bytes"]) > 0x10000:
+            out.append(("I7:bytes-beyond-$FFFF", {"stmt": s["i"], "addr": s["addr"], "len": len(s["bytes"])}))
+            break
     # hex column is a prefix of the bytes
     for s in o.stmts:
         if s["hexcol"] is not None:
